@@ -151,7 +151,19 @@ fn run(_prop: &str, input: &T) -> T {
             let b = b.as_l();
             let kind = b[0].as_i();
             let header = header_of(&b[2]);
-            let txs: Vec<Transaction> = b[3].as_l().iter().map(|t| Transaction::from_bytes(&t.as_bytes()).expect("tx bytes")).collect();
+            let mut txs: Vec<Transaction> = vec![];
+            for t in b[3].as_l() {
+                let items = t.as_l();
+                // run-length form (-1 n bytes): n copies of one transaction
+                if items.len() == 3 && matches!(items[0], T::I(-1)) {
+                    let tx = Transaction::from_bytes(&items[2].as_bytes()).expect("tx bytes");
+                    for _ in 0..items[1].as_usize() {
+                        txs.push(tx.clone());
+                    }
+                } else {
+                    txs.push(Transaction::from_bytes(&t.as_bytes()).expect("tx bytes"));
+                }
+            }
             let consensus = match kind {
                 0 => Consensus::Genesis(Genesis::default()),
                 1 => Consensus::PoA(PoAConsensus::new(signature_of(&b[1]))),
@@ -317,6 +329,24 @@ fn gen(_prop: &str, rng: &mut Rng, n: u64, tier: &str) -> Vec<T> {
                 }
             }
             blocks.push(T::l(vec![T::i(kind), vsig, T::l(f), txs_t(&vtxs)]));
+        }
+        // boundary class: more transactions than the u16 count can express. The header claims
+        // u16::MAX transactions, commits to the real root of 65536 (or 65537) copies and is signed.
+        if cases.len() % 4 == 0 {
+            let n: usize = 65536 + rng.below(2) as usize;
+            let one = Transaction::from_bytes(&pool[0]).unwrap();
+            let many: Vec<Transaction> = std::iter::repeat(one).take(n).collect();
+            let root = fuel_core_types::blockchain::header::generate_txns_root(&many);
+            let mut f: Vec<T> = ht.as_l().to_vec();
+            f[9] = T::bytes(root.as_ref());
+            f[7] = T::n(u16::MAX);
+            let mut h2 = header_of(&T::l(f.clone()));
+            h2.recalculate_metadata();
+            f[3] = T::bytes(h2.application_hash().as_ref());
+            let nid: [u8; 32] = header_of(&T::l(f.clone())).id().into();
+            let vsig = T::l(vec![T::l(vec![T::n(right_key)]), T::bytes(&nid)]);
+            let rle = T::l(vec![T::l(vec![T::i(-1), T::n(n as u64), T::bytes(&pool[0])])]);
+            blocks.push(T::l(vec![T::i(1), vsig, T::l(f), rle]));
         }
         cases.push(T::l(vec![T::n(exp_h), T::n(exp_da), cfg, parent, T::l(blocks)]));
     }
